@@ -146,7 +146,18 @@ func (p *wsPeer) close(clean bool) {
 func pair(kind string) (transport.Conn, rawPeer, func(), error) { return pairFrag(kind, 0) }
 
 // pairFrag: frag > 0 makes the WebSocket peer split every message into frames of about frag bytes.
-func pairFrag(kind string, frag int) (transport.Conn, rawPeer, func(), error) {
+func pairFrag(kind string, frag int) (c transport.Conn, p rawPeer, stop func(), err error) {
+	// a loaded machine may miss one accept / handshake: only a pair that fails three times is unavailable
+	for attempt := 0; attempt < 3; attempt++ {
+		if c, p, stop, err = pairFragOnce(kind, frag); err == nil {
+			return
+		}
+		time.Sleep(20 * time.Millisecond)
+	}
+	return
+}
+
+func pairFragOnce(kind string, frag int) (transport.Conn, rawPeer, func(), error) {
 	srv, err := transport.Launch(kind + "://127.0.0.1:0")
 	if err != nil {
 		return nil, nil, nil, err
@@ -202,7 +213,17 @@ func pairFrag(kind string, frag int) (transport.Conn, rawPeer, func(), error) {
 }
 
 // connPair returns two transport.Conn ends of one real connection (client dialled with transport.Dial).
-func connPair(kind string) (transport.Conn, transport.Conn, func(), error) {
+func connPair(kind string) (a transport.Conn, b transport.Conn, stop func(), err error) {
+	for attempt := 0; attempt < 3; attempt++ {
+		if a, b, stop, err = connPairOnce(kind); err == nil {
+			return
+		}
+		time.Sleep(20 * time.Millisecond)
+	}
+	return
+}
+
+func connPairOnce(kind string) (transport.Conn, transport.Conn, func(), error) {
 	srv, err := transport.Launch(kind + "://127.0.0.1:0")
 	if err != nil {
 		return nil, nil, nil, err
